@@ -202,13 +202,14 @@ prop( 'C15', [ 'B-ROUTE', 'D-REFUSE', 'C-MAIN', 'S-STATUS' ],
       not_decided='textual route-path parsing (string -> segments) over all strings.',
       technique='exhaustive evaluation of a boolean AST over a finite abstract domain (decision-table check); dominance on the CFG' )
 
-prop( 'C01', [ 'T-TYPES', 'L-AGREE', 'T-SEGMENTS', 'T-NCP', 'A-OFFSETS', 'G-FRAME', 'L-SPEC', 'X-SERVICES', 'G-PRIMS' ],
+prop( 'C01', [ 'T-TYPES', 'L-AGREE', 'L-CODEC', 'T-SEGMENTS', 'T-NCP', 'A-OFFSETS', 'G-FRAME', 'L-SPEC', 'X-SERVICES', 'G-PRIMS' ],
       decides='layout-agreement clauses.  T-TYPES: every CIP scalar class has the spec\'s (type code, width, signedness, little-endian byte order), '
               'TYPE.produce packs and state_struct unpacks with the class format, TYPES_SUPPORTED and the 14-row typed_data dispatch are '
               'consistent; L-AGREE: for each of the 24 registered service machines, every layout variant the producer branch can emit '
               '(layout IR read off the produce AST: fixed fields with struct format and data path, pads, delegated codecs, repetitions, '
               'status/struct guards) is accepted by the parser graph extracted from the builder code - same order, width, signedness, byte '
-              'order, data path, pads and status-guard constants; T-SEGMENTS: EPATH.SEGMENTS, the 31-opcode parser transition table and '
+              'order, data path, pads and status-guard constants; L-CODEC: the same agreement for the class-level codecs (status, register, send_data, '
+              'CPF and its item codecs, unconnected_send, SSTRING/STRING, IFACEADDRS, identity/services items) and enip_encode vs the frame header; T-SEGMENTS: EPATH.SEGMENTS, the 31-opcode parser transition table and '
               'EPATH.produce agree with the CIP segment encodings (8/16/32-bit logical, symbolic with odd pad, port with extended port and '
               'address links, size in words, padded/single variants); T-NCP: Network Connection Parameter encode shifts = decode '
               'shifts/masks = spec bit-fields, Large = +16 bits; A-OFFSETS: bundle offset arithmetic is 2+2N on all four sides; G-FRAME: '
@@ -219,7 +220,7 @@ prop( 'C01', [ 'T-TYPES', 'L-AGREE', 'T-SEGMENTS', 'T-NCP', 'A-OFFSETS', 'G-FRAM
       technique='layout IR extraction from both the grammar-construction code (abstract interpretation) and the produce() ASTs, sequence '
                 'acceptance matching; spec-table comparison; linear normalisation' )
 
-prop( 'C14', [ 'L-SPEC', 'K-FORWARDS', 'L-AGREE', 'T-TYPES', 'T-SEGMENTS', 'T-NCP', 'A-OFFSETS', 'G-FRAME' ],
+prop( 'C14', [ 'L-SPEC', 'K-FORWARDS', 'L-AGREE', 'L-CODEC', 'T-TYPES', 'T-SEGMENTS', 'T-NCP', 'A-OFFSETS', 'G-FRAME' ],
       decides='spec-layout clause.  L-SPEC: for the messages an independent Logix client uses (Register Session, SendRRData/SendUnitData with '
               'null-address/unconnected and connection-id/connected-data items, Unconnected Send, Forward Open small and large, Forward '
               'Close, Read/Write Tag [Fragmented], Multiple Service Packet, Get/Set Attribute, List Identity item) the parser layout '
